@@ -1,6 +1,11 @@
 //! Quantity model
 
+#[cfg(not(feature = "verif_hooks"))]
 use std::{collections::HashMap, fmt::Display, sync::Arc};
+#[cfg(feature = "verif_hooks")]
+use std::{fmt::Display, sync::Arc};
+#[cfg(feature = "verif_hooks")]
+use crate::verif_seam::HashMap;
 
 use enum_map::EnumMap;
 use serde::{Deserialize, Serialize};
